@@ -496,22 +496,26 @@ func c16Key(e *Env) {
 		e.R.Undecided(rule, "message.URIPath", "-", "constant not found")
 		return
 	}
-	writes := core.Calls(f, func(n string, _ ssa.CallInstruction) bool { return strings.HasSuffix(n, ".Write") })
+	writes := core.Calls(f, func(n string, _ ssa.CallInstruction) bool {
+		return strings.HasSuffix(n, ".Write") || n == "hash/crc64.Update" || n == "hash/crc64.Checksum"
+	})
 	okAll := len(writes) > 0
 	why := "no Write of option values"
 	for _, w := range writes {
 		guarded := false
 		for _, i := range core.IfsOf(f) {
-			cmp, ok := core.AsCmp(i.Cond)
-			if !ok || cmp.Op != token.EQL {
-				continue
-			}
-			k, isK := core.ConstInt(cmp.Y)
-			if !isK {
-				continue
-			}
-			if _, fl, isF := core.FieldOf(derefLoad(cmp.X)); isF && fl == "ID" && k == uriPath && core.OnlyViaEdge(i, true, w.(ssa.Instruction)) {
-				guarded = true
+			for _, br := range []bool{true, false} {
+				cmp, ok := core.EdgeFacts(i, br) // the comparison that holds on this edge (`ID != URIPath` false edge ≡ `ID == URIPath`)
+				if !ok || cmp.Op != token.EQL {
+					continue
+				}
+				k, isK := core.ConstInt(cmp.Y)
+				if !isK {
+					continue
+				}
+				if _, fl, isF := core.FieldOf(derefLoad(cmp.X)); isF && fl == "ID" && k == uriPath && core.OnlyViaEdge(i, br, w.(ssa.Instruction)) {
+					guarded = true
+				}
 			}
 		}
 		if !guarded && c16FindWindow(f) {
